@@ -1,10 +1,112 @@
+/-
+  C14 helper lemmas, part 2: allocation of derived collections, the shape of the specs of the fixed
+  code, mutators as local steps.  No Mathlib.
+-/
 import Ladybug.Proofs.C14Lemmas
+
 namespace LbHeap
+
+/-! ### allocation only allocates -/
+
+theorem allocAp_ext {h : Heap} (wf : WF h) (s : ApSrc) :
+    Ext h (allocAp h s).1 ∧ WF (allocAp h s).1 := by
+  cases s with
+  | share r => exact ⟨Ext.refl h, wf⟩
+  | new a => exact ⟨alloc_ext h _, alloc_wf wf _⟩
+
+/-- `deepcopy(metadata)`: only allocations; every nested list of the copy is a new list cell. -/
+theorem allocMd_spec {h : Heap} (wf : WF h) (m : List (Nat × OV)) :
+    Ext h (allocMd h m).1 ∧ WF (allocMd h m).1 ∧
+    ∀ r ∈ mdRefs (allocMd h m).2, h.next ≤ r ∧ ∃ l, (allocMd h m).1.cells r = some (.mlist l) := by
+  induction m generalizing h with
+  | nil => exact ⟨Ext.refl h, wf, fun r hr => by simp [allocMd, mdRefs] at hr⟩
+  | cons p rest ih =>
+    obtain ⟨k, v⟩ := p
+    cases v with
+    | tok s =>
+      simp only [allocMd, mdRefs_cons_tok]
+      exact ih wf
+    | bad =>
+      simp only [allocMd, mdRefs_cons_tok]
+      exact ih wf
+    | lst l =>
+      simp only [allocMd, mdRefs_cons_lst]
+      have A := alloc_ext h (.mlist l)
+      have Awf := alloc_wf wf (.mlist l)
+      have I := ih (h := (h.alloc (.mlist l)).1) Awf
+      refine ⟨A.trans I.1, I.2.1, fun r hr => ?_⟩
+      rcases List.mem_cons.1 hr with e | e
+      · subst e
+        exact ⟨Nat.le_refl _, l, ext_cell Awf I.1 (alloc_get h _)⟩
+      · obtain ⟨h1, h2⟩ := I.2.2 r e
+        have : h.next ≤ (h.alloc (.mlist l)).1.next := A.1
+        exact ⟨Nat.le_trans this h1, h2⟩
+
+theorem allocMeta_ext {h : Heap} (wf : WF h) (s : MetaSrc) :
+    Ext h (allocMeta h s).1 ∧ WF (allocMeta h s).1 := by
+  cases s with
+  | share r => exact ⟨Ext.refl h, wf⟩
+  | new m =>
+    have A := allocMd_spec wf m
+    exact ⟨A.1.trans (alloc_ext _ _), alloc_wf A.2.1 _⟩
+  | shallow m => exact ⟨alloc_ext h _, alloc_wf wf _⟩
+
+/-- A deep-copied metadata dict: a new dict cell whose nested lists are new cells. -/
+theorem allocMeta_new_spec {h : Heap} (wf : WF h) (m : List (Nat × OV)) :
+    Ext h (allocMeta h (.new m)).1 ∧ WF (allocMeta h (.new m)).1 ∧ h.next ≤ (allocMeta h (.new m)).2 ∧
+    ∃ mm, (allocMeta h (.new m)).1.cells (allocMeta h (.new m)).2 = some (.md mm) ∧
+      ∀ r ∈ mdRefs mm, h.next ≤ r ∧ ∃ l, (allocMeta h (.new m)).1.cells r = some (.mlist l) := by
+  have A := allocMd_spec wf m
+  simp only [allocMeta]
+  have B := alloc_ext (allocMd h m).1 (.md (allocMd h m).2)
+  have Bwf := alloc_wf A.2.1 (.md (allocMd h m).2)
+  refine ⟨A.1.trans B, Bwf, ?_, _, alloc_get _ _, fun r hr => ?_⟩
+  · have : h.next ≤ (allocMd h m).1.next := A.1.1
+    exact this
+  · obtain ⟨h1, l, h2⟩ := A.2.2 r hr
+    exact ⟨h1, l, ext_cell A.2.1 B h2⟩
+
+theorem allocVals_ext {h : Heap} (wf : WF h) (s : ValSrc) :
+    Ext h (allocVals h s).1 ∧ WF (allocVals h s).1 := by
+  cases s with
+  | share r => exact ⟨Ext.refl h, wf⟩
+  | new a t => exact ⟨alloc_ext h _, alloc_wf wf _⟩
+
+theorem allocHdr_ext {h : Heap} (wf : WF h) (s : HdrSrc) :
+    Ext h (allocHdr h s).1 ∧ WF (allocHdr h s).1 := by
+  cases s with
+  | share r => exact ⟨Ext.refl h, wf⟩
+  | new dt u ap m =>
+    simp only [allocHdr]
+    have h1 := allocAp_ext wf ap
+    have h2 := allocMeta_ext h1.2 m
+    exact ⟨(h1.1.trans h2.1).trans (alloc_ext _ _), alloc_wf h2.2 _⟩
+
+theorem mkColl_ext {h : Heap} (wf : WF h) (s : NewSpec) :
+    Ext h (mkColl h s).1 ∧ WF (mkColl h s).1 := by
+  simp only [mkColl]
+  have h1 := allocHdr_ext wf s.hdr
+  have h2 := allocVals_ext h1.2 s.vals
+  exact ⟨(h1.1.trans h2.1).trans (alloc_ext _ _), alloc_wf h2.2 _⟩
+
+/-- Every deriving operation (pinned or fixed code) only allocates: no existing cell changes. -/
+theorem derive_ext {m : Mode} {h h' : Heap} {c r : Nat} {op : DOp} (wf : WF h)
+    (e : derive m h c op = .ok (h', r)) : Ext h h' ∧ WF h' := by
+  unfold derive at e
+  split at e
+  · cases e
+  · rename_i s _
+    have e' : mkColl h s = (h', r) := Except.ok.inj e
+    have := mkColl_ext wf s
+    rw [e'] at this
+    exact this
+
+/-! ### reading a source -/
 
 theorem src_ok {h : Heap} {c : Nat} {s : Src} (e : src h c = .ok s) :
     h.cells c = some (.coll s.k) ∧ h.cells s.k.hdr = some (.hdr s.hd) ∧
-    h.cells s.hd.md = some (.md s.md) ∧ h.cells s.hd.ap = some (.ap s.ap) ∧
-    h.cells s.k.vals = some (.vals s.vals s.tuple) := by
+    h.cells s.hd.md = some (.md s.rmd) ∧ h.cells s.hd.ap = some (.ap s.ap) ∧
+    h.cells s.k.vals = some (.vals s.vals s.tuple) ∧ s.md = obsMeta h.cells s.rmd := by
   unfold src at e
   split at e
   · cases e
@@ -16,7 +118,7 @@ theorem src_ok {h : Heap} {c : Nat} {s : Src} (e : src h c = .ok s) :
       · rename_i m a v t hm ha hv
         cases e
         simp only [getColl, getHdr, getMeta, getAP, getVals] at hk hhd hm ha hv
-        refine ⟨?_, ?_, ?_, ?_, ?_⟩
+        refine ⟨?_, ?_, ?_, ?_, ?_, rfl⟩
         · split at hk <;> simp_all
         · split at hhd <;> simp_all
         · split at hm <;> simp_all
@@ -24,18 +126,125 @@ theorem src_ok {h : Heap} {c : Nat} {s : Src} (e : src h c = .ok s) :
         · split at hv <;> simp_all
       · cases e
 
-theorem typed_of_src {h : Heap} {c : Nat} {s : Src} (e : src h c = .ok s)
-    (hm : s.k.isMut = true → s.tuple = false) : Typed h c := by
-  obtain ⟨e1, e2, e3, e4, e5⟩ := src_ok e
-  exact ⟨_, _, _, _, _, _, e1, e2, e3, e4, e5, hm⟩
-
 theorem src_of_typed {h : Heap} {c : Nat} (ty : Typed h c) :
-    ∃ s, src h c = .ok s ∧ (s.k.isMut = true → s.tuple = false) := by
-  obtain ⟨k, hd, m, a, v, t, e1, e2, e3, e4, e5, e6⟩ := ty
-  exact ⟨⟨k, hd, m, a, v, t⟩, by simp [src, getColl, getHdr, getMeta, getAP, getVals, e1, e2, e3, e4, e5], e6⟩
+    ∃ s, src h c = .ok s ∧ (s.k.isMut = true → s.tuple = false) ∧
+      ∀ r ∈ mdRefs s.rmd, ∃ l, h.cells r = some (.mlist l) := by
+  obtain ⟨k, hd, m, a, v, t, e1, e2, e3, e4, e5, e6, e7⟩ := ty
+  exact ⟨⟨k, hd, m, obsMeta h.cells m, a, v, t⟩,
+    by simp [src, getColl, getHdr, getMeta, getAP, getVals, e1, e2, e3, e4, e5], e6, e7⟩
 
-/-- Shape of the specs of the fixed code: new header with a new metadata dict; period new or the
-    source's; values new (a list for a mutable result) or – for an immutable result – the source's tuple. -/
+/-! ### a copying spec builds a fresh collection -/
+
+/-- A new header with a deep-copied metadata dict. -/
+theorem allocHdr_new_spec {h : Heap} (wf : WF h) (dt u : Nat) (ap : ApSrc) (m : List (Nat × OV))
+    (hap : ∀ r, ap = .share r → ∃ a, h.cells r = some (.ap a)) :
+    Ext h (allocHdr h (.new dt u ap (.new m))).1 ∧ WF (allocHdr h (.new dt u ap (.new m))).1 ∧
+    h.next ≤ (allocHdr h (.new dt u ap (.new m))).2 ∧
+    ∃ ra rm mm a,
+      (allocHdr h (.new dt u ap (.new m))).1.cells (allocHdr h (.new dt u ap (.new m))).2
+        = some (.hdr ⟨dt, u, ra, rm⟩) ∧
+      h.next ≤ rm ∧ (allocHdr h (.new dt u ap (.new m))).1.cells rm = some (.md mm) ∧
+      (∀ r ∈ mdRefs mm, h.next ≤ r ∧
+        ∃ l, (allocHdr h (.new dt u ap (.new m))).1.cells r = some (.mlist l)) ∧
+      (allocHdr h (.new dt u ap (.new m))).1.cells ra = some (.ap a) ∧
+      (h.next ≤ ra ∨ h.cells ra = some (.ap a)) := by
+  have A := allocAp_ext wf ap
+  have Aref : ∃ a, (allocAp h ap).1.cells (allocAp h ap).2 = some (.ap a) ∧
+      (h.next ≤ (allocAp h ap).2 ∨ h.cells (allocAp h ap).2 = some (.ap a)) := by
+    cases ap with
+    | share r => obtain ⟨a, ha⟩ := hap r rfl; exact ⟨a, ha, Or.inr ha⟩
+    | new a => exact ⟨a, alloc_get h _, Or.inl (Nat.le_refl _)⟩
+  obtain ⟨a, ha1, ha2⟩ := Aref
+  have B := allocMeta_new_spec A.2 m
+  obtain ⟨Bext, Bwf, Bge, mm, Bget, Bn⟩ := B
+  simp only [allocHdr]
+  have C := alloc_ext (allocMeta (allocAp h ap).1 (.new m)).1
+    (.hdr ⟨dt, u, (allocAp h ap).2, (allocMeta (allocAp h ap).1 (.new m)).2⟩)
+  have Cwf := alloc_wf Bwf
+    (.hdr ⟨dt, u, (allocAp h ap).2, (allocMeta (allocAp h ap).1 (.new m)).2⟩)
+  have n01 : h.next ≤ (allocAp h ap).1.next := A.1.1
+  have n12 : (allocAp h ap).1.next ≤ (allocMeta (allocAp h ap).1 (.new m)).1.next := Bext.1
+  refine ⟨(A.1.trans Bext).trans C, Cwf, ?_, _, _, mm, a, alloc_get _ _, ?_, ext_cell Bwf C Bget,
+    fun r hr => ?_, ext_cell A.2 (Bext.trans C) ha1, ha2⟩
+  · rw [alloc_ref]; omega
+  · omega
+  · obtain ⟨h1, l, h2⟩ := Bn r hr
+    exact ⟨by omega, l, ext_cell Bwf C h2⟩
+
+/-- A copying spec builds a fresh collection. -/
+theorem mkColl_fresh {h : Heap} (wf : WF h) {s : NewSpec} (cp : s.Copying h) :
+    Fresh collFP h (mkColl h s).1 (mkColl h s).2 := by
+  obtain ⟨⟨dt, u, ap, m, hh, hap⟩, hshare, hnew⟩ := cp
+  have hext := mkColl_ext wf s
+  have H := allocHdr_new_spec wf dt u ap m hap
+  rw [← hh] at H
+  obtain ⟨Hext, Hwf, Hge, ra, rm, mm, a, Hget, Hrm, Hmd, Hn, Hap, Hapn⟩ := H
+  -- the values cell
+  have D := allocVals_ext Hwf s.vals
+  have Dref : (∃ v t, (allocVals (allocHdr h s.hdr).1 s.vals).1.cells
+        (allocVals (allocHdr h s.hdr).1 s.vals).2 = some (.vals v t) ∧ (s.isMut = true → t = false)) ∧
+      (((allocHdr h s.hdr).1.next ≤ (allocVals (allocHdr h s.hdr).1 s.vals).2) ∨
+        (s.isMut = false ∧ ∃ v, h.cells (allocVals (allocHdr h s.hdr).1 s.vals).2 = some (.vals v true))) := by
+    cases hv : s.vals with
+    | share r =>
+      obtain ⟨⟨v, hv1⟩, hm⟩ := hshare r hv
+      exact ⟨⟨v, true, ext_cell wf Hext hv1, fun hm' => by rw [hm] at hm'; cases hm'⟩,
+        Or.inr ⟨hm, v, hv1⟩⟩
+    | new v t =>
+      exact ⟨⟨v, t, alloc_get _ _, hnew v t hv⟩, Or.inl (Nat.le_refl _)⟩
+  obtain ⟨⟨vv, vt, hvv, hvt⟩, hvn⟩ := Dref
+  have n03 : h.next ≤ (allocHdr h s.hdr).1.next := Hext.1
+  have n34 : (allocHdr h s.hdr).1.next ≤ (allocVals (allocHdr h s.hdr).1 s.vals).1.next := D.1.1
+  simp only [mkColl]
+  have E := alloc_ext (allocVals (allocHdr h s.hdr).1 s.vals).1
+    (.coll ⟨(allocHdr h s.hdr).2, (allocVals (allocHdr h s.hdr).1 s.vals).2, s.dts, s.isMut, s.cls,
+      s.validated, false⟩)
+  have Ewf := alloc_wf D.2
+    (.coll ⟨(allocHdr h s.hdr).2, (allocVals (allocHdr h s.hdr).1 s.vals).2, s.dts, s.isMut, s.cls,
+      s.validated, false⟩)
+  have Eget := alloc_get (allocVals (allocHdr h s.hdr).1 s.vals).1
+    (.coll ⟨(allocHdr h s.hdr).2, (allocVals (allocHdr h s.hdr).1 s.vals).2, s.dts, s.isMut, s.cls,
+      s.validated, false⟩)
+  have e35 := D.1.trans E
+  have c_hdr := ext_cell Hwf e35 Hget
+  have c_md := ext_cell Hwf e35 Hmd
+  have c_ap := ext_cell Hwf e35 Hap
+  have c_vals := ext_cell D.2 E hvv
+  have c_n : ∀ r ∈ mdRefs mm, ∃ l, _ = some (Cell.mlist l) :=
+    fun r hr => let ⟨_, l, h2⟩ := Hn r hr; ⟨l, ext_cell Hwf e35 h2⟩
+  have self_ge : h.next ≤ (allocVals (allocHdr h s.hdr).1 s.vals).1.next := by omega
+  refine ⟨Hext.trans e35, Ewf, ⟨_, _, mm, a, vv, vt, Eget, c_hdr, c_md, c_ap, c_vals, hvt, c_n⟩,
+    self_ge, ?_, ?_⟩
+  · intro r hr
+    rcases (mem_owned Eget c_hdr c_md).1 hr with h1 | h1 | h1 | h1 | ⟨hm, h1⟩
+    · rw [h1]; exact self_ge
+    · rw [h1]; exact Hge
+    · rw [h1]; exact Hrm
+    · exact (Hn r h1).1
+    · rw [h1]
+      rcases hvn with h2 | ⟨h2, _⟩
+      · simp only at hm ⊢; omega
+      · simp only at hm; rw [h2] at hm; cases hm
+  · intro r hr
+    rcases (mem_reads Eget c_hdr c_md).1 hr with h1 | h1 | h1 | h1 | h1 | h1
+    · left; rw [h1]; exact self_ge
+    · left; rw [h1]; exact Hge
+    · left; rw [h1]; exact Hrm
+    · rw [h1]
+      rcases Hapn with h2 | h2
+      · left; exact h2
+      · right; left; exact ⟨a, h2⟩
+    · rw [h1]
+      rcases hvn with h2 | ⟨_, v, h2⟩
+      · left; simp only; omega
+      · right; right; left; exact ⟨v, h2⟩
+    · left; exact (Hn r h1).1
+
+/-! ### the deriving operations of the fixed code copy -/
+
+/-- Shape of the specs of the fixed code: new header with a deep-copied metadata dict; period new or
+    the source's; values new (a list for a mutable result) or – for an immutable result – the source's
+    tuple. -/
 def CopyShape (s : Src) (sp : NewSpec) : Prop :=
   (∃ dt u ap m, sp.hdr = .new dt u ap (.new m) ∧ (∀ r, ap = .share r → r = s.hd.ap)) ∧
   (∀ r, sp.vals = .share r → r = s.k.vals ∧ s.tuple = true ∧ sp.isMut = false) ∧
@@ -43,7 +252,7 @@ def CopyShape (s : Src) (sp : NewSpec) : Prop :=
 
 theorem copying_of_shape {h : Heap} {c : Nat} {s : Src} (e : src h c = .ok s) {sp : NewSpec}
     (sh : CopyShape s sp) : sp.Copying h := by
-  obtain ⟨_, _, _, e4, e5⟩ := src_ok e
+  obtain ⟨_, _, _, e4, e5, _⟩ := src_ok e
   obtain ⟨⟨dt, u, ap, m, hh, hap⟩, hv, hn⟩ := sh
   refine ⟨⟨dt, u, ap, m, hh, fun r hr => ?_⟩, fun r hr => ?_, hn⟩
   · rw [hap r hr]; exact ⟨_, e4⟩
@@ -52,8 +261,8 @@ theorem copying_of_shape {h : Heap} {c : Nat} {s : Src} (e : src h c = .ok s) {s
     exact ⟨⟨_, e5⟩, hm⟩
 
 theorem shape_dup (s : Src) (u : Option Nat) (ap : Option (List Nat)) (x : Option (Nat × MV))
-    (b : Bool) (v : List Rat) (d : List Nat) (c : Cls) (vd : Bool) :
-    CopyShape s ⟨dupHdr s u ap x, newVals b v, d, b, c, vd⟩ := by
+    (dt : Option Nat) (b : Bool) (v : List Rat) (d : List Nat) (c : Cls) (vd : Bool) :
+    CopyShape s ⟨dupHdr s u ap x dt, newVals b v, d, b, c, vd⟩ := by
   refine ⟨⟨_, _, _, _, rfl, ?_⟩, ?_, ?_⟩
   · intro r hr; cases hr
   · intro r hr; simp [newVals] at hr
@@ -89,20 +298,32 @@ theorem shape_filtered {s : Src} {sel : Nat → Bool} {kf : Bool} {ap : Option (
   simp only at e
   split at e
   · cases e
-  · cases e; exact shape_dup s _ _ _ _ _ _ _ _
+  · cases e; exact shape_dup s _ _ _ _ _ _ _ _ _
+
+theorem shape_cfa {h : Heap} {s : Src} {x : Operand} {u : Nat} {sp : NewSpec}
+    (e : cfaSpec .fixed h s x u = .ok sp) : CopyShape s sp := by
+  unfold cfaSpec at e
+  simp only [bind, Except.bind, pure, Except.pure, reduceCtorEq, false_and, if_false] at e
+  repeat' (split at e)
+  all_goals first
+    | (cases e <;> first
+        | exact shape_aligned _ _ _ _ _ _ _ _
+        | exact shape_newap _ _ _ _ _ _ _ _)
+    | cases e
 
 /-- Every deriving operation of the fixed code copies. -/
 theorem specOf_fixed_shape {h : Heap} {c : Nat} {op : DOp} {s : Src} {sp : NewSpec}
     (hs : src h c = .ok s) (e : specOf .fixed h c op = .ok sp) : CopyShape s sp := by
   unfold specOf at e
   simp only [hs, bind, Except.bind, pure, Except.pure, hdrOrShare] at e
-  cases op <;> simp only [reduceCtorEq, false_and, if_false, and_false] at e
+  cases op <;> simp only [reduceCtorEq, false_and, if_false] at e
   all_goals
     repeat' (split at e)
   all_goals first
     | exact shape_filtered e
+    | exact shape_cfa e
     | (cases e <;> first
-        | exact shape_dup _ _ _ _ _ _ _ _ _
+        | exact shape_dup _ _ _ _ _ _ _ _ _ _
         | exact shape_aligned _ _ _ _ _ _ _ _
         | exact shape_newap _ _ _ _ _ _ _ _
         | (refine shape_dup_share _ _ _ _ _ ?_ ?_ <;> simp_all))
@@ -111,68 +332,84 @@ theorem specOf_fixed_shape {h : Heap} {c : Nat} {op : DOp} {s : Src} {sp : NewSp
 
 /-- Generic shape of the heap after a mutator on `a`. -/
 theorem local_of_shape {h h' : Heap} {a : Nat} {k k' : Coll} {hd hd' : Hdr}
-    {m' : List (Nat × MV)} {ap' : List Nat} {v' : List Rat} {t' : Bool}
+    {m m' : List (Nat × MVal)} {ap' : List Nat} {v' : List Rat} {t' : Bool}
     (e1 : h.cells a = some (.coll k)) (e2 : h.cells k.hdr = some (.hdr hd))
+    (e3 : h.cells hd.md = some (.md m))
     (wf' : WF h')
     (c1 : h'.cells a = some (.coll k')) (c2 : h'.cells k'.hdr = some (.hdr hd'))
     (c3 : h'.cells hd'.md = some (.md m')) (c4 : h'.cells hd'.ap = some (.ap ap'))
     (c5 : h'.cells k'.vals = some (.vals v' t')) (c6 : k'.isMut = true → t' = false)
+    (c7 : ∀ r ∈ mdRefs m', ∃ l, h'.cells r = some (.mlist l))
     (khdr : k'.hdr = k.hdr) (kmut : k'.isMut = k.isMut)
     (pmd : hd'.md = hd.md ∨ h.next ≤ hd'.md) (pap : hd'.ap = hd.ap ∨ h.next ≤ hd'.ap)
     (pv : k'.vals = k.vals ∨ h.next ≤ k'.vals)
-    (frame : ∀ r, r < h.next → r ∉ owned h a → h'.cells r = h.cells r) : Local h h' a := by
-  have hf := foot_of_typed e1 e2
-  have hf' := foot_of_typed c1 c2
-  refine ⟨wf', frame, ⟨_, _, _, _, _, _, c1, c2, c3, c4, c5, c6⟩, ?_, ?_⟩
+    (pn : ∀ r ∈ mdRefs m', r ∈ mdRefs m ∨ h.next ≤ r)
+    (frame : ∀ r, r < h.next → r ∉ owned h a → h'.cells r = h.cells r) : Local collFP h h' a := by
+  refine ⟨wf', frame, ⟨_, _, _, _, _, _, c1, c2, c3, c4, c5, c6, c7⟩, ?_, ?_⟩
   · intro r hr
-    simp only [owned, hf', List.mem_append, List.mem_cons, List.not_mem_nil, or_false] at hr
-    simp only [owned, hf, List.mem_append, List.mem_cons, List.not_mem_nil, or_false]
-    rcases hr with (rfl | rfl | rfl) | hr
-    · exact Or.inl (Or.inl (Or.inl rfl))
-    · exact Or.inl (Or.inl (Or.inr (Or.inl khdr)))
+    have hr' := (mem_owned c1 c2 c3).1 hr
+    show r ∈ owned h a ∨ h.next ≤ r
+    rw [mem_owned e1 e2 e3]
+    rcases hr' with h1 | h1 | h1 | h1 | ⟨hm, h1⟩
+    · exact Or.inl (Or.inl h1)
+    · exact Or.inl (Or.inr (Or.inl (h1.trans khdr)))
     · rcases pmd with p | p
-      · exact Or.inl (Or.inl (Or.inr (Or.inr p)))
-      · exact Or.inr p
-    · rw [kmut] at hr
-      split at hr
-      · rename_i hm
-        simp only [List.mem_cons, List.not_mem_nil, or_false] at hr
-        subst hr
-        rcases pv with p | p
-        · left; right; simp [hm, p]
-        · exact Or.inr p
-      · cases hr
-  · intro r hr
-    simp only [reads, hf', List.mem_cons, List.not_mem_nil, or_false] at hr
-    simp only [reads, hf, List.mem_cons, List.not_mem_nil, or_false]
-    rcases hr with rfl | rfl | rfl | rfl | rfl
-    · exact Or.inl (Or.inl rfl)
-    · exact Or.inl (Or.inr (Or.inl khdr))
-    · rcases pmd with p | p
-      · exact Or.inl (Or.inr (Or.inr (Or.inl p)))
-      · exact Or.inr p
-    · rcases pap with p | p
+      · exact Or.inl (Or.inr (Or.inr (Or.inl (h1.trans p))))
+      · exact Or.inr (by rw [h1]; exact p)
+    · rcases pn r h1 with p | p
       · exact Or.inl (Or.inr (Or.inr (Or.inr (Or.inl p))))
       · exact Or.inr p
     · rcases pv with p | p
-      · exact Or.inl (Or.inr (Or.inr (Or.inr (Or.inr p))))
+      · exact Or.inl (Or.inr (Or.inr (Or.inr (Or.inr ⟨kmut ▸ hm, h1.trans p⟩))))
+      · exact Or.inr (by rw [h1]; exact p)
+  · intro r hr
+    have hr' := (mem_reads c1 c2 c3).1 hr
+    show r ∈ reads h a ∨ h.next ≤ r
+    rw [mem_reads e1 e2 e3]
+    rcases hr' with h1 | h1 | h1 | h1 | h1 | h1
+    · exact Or.inl (Or.inl h1)
+    · exact Or.inl (Or.inr (Or.inl (h1.trans khdr)))
+    · rcases pmd with p | p
+      · exact Or.inl (Or.inr (Or.inr (Or.inl (h1.trans p))))
+      · exact Or.inr (by rw [h1]; exact p)
+    · rcases pap with p | p
+      · exact Or.inl (Or.inr (Or.inr (Or.inr (Or.inl (h1.trans p)))))
+      · exact Or.inr (by rw [h1]; exact p)
+    · rcases pv with p | p
+      · exact Or.inl (Or.inr (Or.inr (Or.inr (Or.inr (Or.inl (h1.trans p))))))
+      · exact Or.inr (by rw [h1]; exact p)
+    · rcases pn r h1 with p | p
+      · exact Or.inl (Or.inr (Or.inr (Or.inr (Or.inr (Or.inr p)))))
       · exact Or.inr p
 
-theorem not_owned {h : Heap} {a r : Nat} {k : Coll} {hd : Hdr}
-    (e1 : h.cells a = some (.coll k)) (e2 : h.cells k.hdr = some (.hdr hd)) (hr : r ∉ owned h a) :
-    r ≠ a ∧ r ≠ k.hdr ∧ r ≠ hd.md ∧ (k.isMut = true → r ≠ k.vals) := by
-  simp only [owned, foot_of_typed e1 e2, List.mem_append, List.mem_cons, List.not_mem_nil, or_false,
-    not_or] at hr
-  refine ⟨hr.1.1, hr.1.2.1, hr.1.2.2, fun hm => ?_⟩
-  have := hr.2
-  simp only [hm, if_true, List.mem_cons, List.not_mem_nil, or_false] at this
-  exact this
+theorem not_owned {h : Heap} {a r : Nat} {k : Coll} {hd : Hdr} {m : List (Nat × MVal)}
+    (e1 : h.cells a = some (.coll k)) (e2 : h.cells k.hdr = some (.hdr hd))
+    (e3 : h.cells hd.md = some (.md m)) (hr : r ∉ owned h a) :
+    r ≠ a ∧ r ≠ k.hdr ∧ r ≠ hd.md ∧ r ∉ mdRefs m ∧ (k.isMut = true → r ≠ k.vals) := by
+  rw [mem_owned e1 e2 e3] at hr
+  simp only [not_or, not_and] at hr
+  exact ⟨hr.1, hr.2.1, hr.2.2.1, hr.2.2.2.1, hr.2.2.2.2⟩
+
+theorem mdRefs_metaSet_sub {m : List (Nat × MVal)} {k : Nat} {v : MVal} {r : Nat}
+    (hr : r ∈ mdRefs (metaSet m k v)) : r ∈ mdRefs m ∨ v = .lst r := by
+  obtain ⟨k', hk⟩ := mem_mdRefs.1 hr
+  unfold metaSet at hk
+  split at hk
+  · obtain ⟨p, hp, he⟩ := List.mem_map.1 hk
+    split at he
+    · right; cases he; rfl
+    · left; subst he; exact mem_mdRefs.2 ⟨_, hp⟩
+  · rcases List.mem_append.1 hk with h1 | h1
+    · left; exact mem_mdRefs.2 ⟨_, h1⟩
+    · right
+      simp only [List.mem_cons, List.not_mem_nil, or_false, Prod.mk.injEq] at h1
+      exact h1.2.symm
 
 /-- Every successful mutator (pinned or fixed code) is a local step on its target. -/
 theorem mutate_local {m : Mode} {h h' : Heap} {a : Nat} {op : MOp} (wf : WF h) (ty : Typed h a)
-    (e : mutate m h a op = .ok h') : Local h h' a := by
-  obtain ⟨s, hs, hmt⟩ := src_of_typed ty
-  obtain ⟨e1, e2, e3, e4, e5⟩ := src_ok hs
+    (e : mutate m h a op = .ok h') : Local collFP h h' a := by
+  obtain ⟨s, hs, hmt, e7⟩ := src_of_typed ty
+  obtain ⟨e1, e2, e3, e4, e5, _⟩ := src_ok hs
   have l1 := lt_next_of_some wf e1
   have l2 := lt_next_of_some wf e2
   have l3 := lt_next_of_some wf e3
@@ -193,13 +430,21 @@ theorem mutate_local {m : Mode} {h h' : Heap} {a : Nat} {op : MOp} (wf : WF h) (
   have f3 : s.hd.md ≠ h.next := Nat.ne_of_lt l3
   have f4 : s.hd.ap ≠ h.next := Nat.ne_of_lt l4
   have f5 : s.k.vals ≠ h.next := Nat.ne_of_lt l5
+  -- nested list cells differ from all the other cells of `a` and are old
+  have nn : ∀ (r : Nat) l, h.cells r = some (.mlist l) →
+      r ≠ a ∧ r ≠ s.k.hdr ∧ r ≠ s.hd.md ∧ r ≠ s.hd.ap ∧ r ≠ s.k.vals ∧ r ≠ h.next ∧ r ≠ h.next + 1 := by
+    intro r l hl
+    have := lt_next_of_some wf hl
+    exact ⟨ne_of_kind hl e1 (by simp), ne_of_kind hl e2 (by simp), ne_of_kind hl e3 (by simp),
+      ne_of_kind hl e4 (by simp), ne_of_kind hl e5 (by simp), Nat.ne_of_lt this,
+      Nat.ne_of_lt (Nat.lt_succ_of_lt this)⟩
   -- the three unit conversions share one heap shape
-  have conv : ∀ u, Local h (convertTo h a s u) a := by
+  have conv : ∀ u, Local collFP h (convertTo h a s u) a := by
     intro u
     refine local_of_shape (k' := { s.k with vals := h.next }) (hd' := { s.hd with unit := u })
-      (m' := s.md) (ap' := s.ap) (v' := convVals s.hd.unit u s.vals) (t' := false)
-      e1 e2 ?_ ?_ ?_ ?_ ?_ ?_ (fun _ => rfl) rfl rfl (Or.inl rfl) (Or.inl rfl)
-      (Or.inr (Nat.le_refl _)) ?_
+      (m' := s.rmd) (ap' := s.ap) (v' := convVals s.hd.unit u s.vals) (t' := false)
+      e1 e2 e3 ?_ ?_ ?_ ?_ ?_ ?_ (fun _ => rfl) ?_ rfl rfl (Or.inl rfl) (Or.inl rfl)
+      (Or.inr (Nat.le_refl _)) (fun r hr => Or.inl hr) ?_
     · exact write_wf (write_wf (alloc_wf wf _) _ (by simp only [alloc_next]; omega)) _
         (by simp only [write_next, alloc_next]; omega)
     · simp [convertTo, Heap.write, Heap.alloc, n12]
@@ -207,10 +452,39 @@ theorem mutate_local {m : Mode} {h h' : Heap} {a : Nat} {op : MOp} (wf : WF h) (
     · simp [convertTo, Heap.write, Heap.alloc, n23.symm, n13.symm, f3, e3]
     · simp [convertTo, Heap.write, Heap.alloc, n24.symm, n14.symm, f4, e4]
     · simp [convertTo, Heap.write, Heap.alloc, f2.symm, f1.symm]
+    · intro r hr
+      obtain ⟨l, hl⟩ := e7 r hr
+      obtain ⟨r1, r2, _, _, _, r6, _⟩ := nn r l hl
+      exact ⟨l, by simp [convertTo, Heap.write, Heap.alloc, r1, r2, r6, hl]⟩
     · intro r hr ho
-      obtain ⟨r1, r2, _, _⟩ := not_owned e1 e2 ho
+      obtain ⟨r1, r2, _, _, _⟩ := not_owned e1 e2 e3 ho
       have : r ≠ h.next := by omega
       simp [convertTo, Heap.write, Heap.alloc, r1, r2, this]
+  -- `values = v`
+  have setv : ∀ v h'', setVals h a s v = .ok h'' → Local collFP h h'' a := by
+    intro v h'' e
+    unfold setVals at e
+    repeat' (split at e)
+    all_goals try (cases e; done)
+    cases e
+    refine local_of_shape (k' := { s.k with vals := h.next }) (hd' := s.hd)
+      (m' := s.rmd) (ap' := s.ap) (v' := v) (t' := false)
+      e1 e2 e3 ?_ ?_ ?_ ?_ ?_ ?_ (fun _ => rfl) ?_ rfl rfl (Or.inl rfl) (Or.inl rfl)
+      (Or.inr (Nat.le_refl _)) (fun r hr => Or.inl hr) ?_
+    · exact write_wf (alloc_wf wf _) _ (by simp only [alloc_next]; omega)
+    · simp [Heap.write, Heap.alloc]
+    · simp [Heap.write, Heap.alloc, n12.symm, f2, e2]
+    · simp [Heap.write, Heap.alloc, n13.symm, f3, e3]
+    · simp [Heap.write, Heap.alloc, n14.symm, f4, e4]
+    · simp [Heap.write, Heap.alloc, f1.symm]
+    · intro r hr
+      obtain ⟨l, hl⟩ := e7 r hr
+      obtain ⟨r1, _, _, _, _, r6, _⟩ := nn r l hl
+      exact ⟨l, by simp [Heap.write, Heap.alloc, r1, r6, hl]⟩
+    · intro r hr ho
+      obtain ⟨r1, _, _, _, _⟩ := not_owned e1 e2 e3 ho
+      have : r ≠ h.next := by omega
+      simp [Heap.write, Heap.alloc, r1, this]
   unfold mutate at e
   simp only [hs, bind, Except.bind, pure, Except.pure] at e
   cases op <;> simp only at e
@@ -223,70 +497,120 @@ theorem mutate_local {m : Mode} {h h' : Heap} {a : Nat} {op : MOp} (wf : WF h) (
   case convSi =>
     repeat' (split at e)
     all_goals first | (cases e; exact conv _) | cases e
-  case setValues v =>
-    repeat' (split at e)
-    all_goals try (cases e; done)
-    cases e
-    refine local_of_shape (k' := { s.k with vals := h.next }) (hd' := s.hd)
-      (m' := s.md) (ap' := s.ap) (v' := v) (t' := false)
-      e1 e2 ?_ ?_ ?_ ?_ ?_ ?_ (fun _ => rfl) rfl rfl (Or.inl rfl) (Or.inl rfl)
-      (Or.inr (Nat.le_refl _)) ?_
-    · exact write_wf (alloc_wf wf _) _ (by simp only [alloc_next]; omega)
-    · simp [Heap.write, Heap.alloc]
-    · simp [Heap.write, Heap.alloc, n12.symm, f2, e2]
-    · simp [Heap.write, Heap.alloc, n13.symm, f3, e3]
-    · simp [Heap.write, Heap.alloc, n14.symm, f4, e4]
-    · simp [Heap.write, Heap.alloc, f1.symm]
-    · intro r hr ho
-      obtain ⟨r1, _, _, _⟩ := not_owned e1 e2 ho
-      have : r ≠ h.next := by omega
-      simp [Heap.write, Heap.alloc, r1, this]
+  case setValues v => exact setv v h' e
+  case setValuesRef r =>
+    split at e
+    · cases e
+    · split at e
+      · exact setv _ h' e
+      · cases e
   case setItem i x =>
     repeat' (split at e)
     all_goals try (cases e; done)
     all_goals
       have hm : s.k.isMut = true := by simp_all
       cases e
-      refine local_of_shape (k' := s.k) (hd' := s.hd) (m' := s.md) (ap' := s.ap)
+      refine local_of_shape (k' := s.k) (hd' := s.hd) (m' := s.rmd) (ap' := s.ap)
         (t' := s.tuple)
-        e1 e2 ?_ ?_ ?_ ?_ ?_ (write_same _ _ _) hmt rfl rfl (Or.inl rfl) (Or.inl rfl) (Or.inl rfl) ?_
+        e1 e2 e3 ?_ ?_ ?_ ?_ ?_ (write_same _ _ _) hmt ?_ rfl rfl (Or.inl rfl) (Or.inl rfl) (Or.inl rfl)
+        (fun r hr => Or.inl hr) ?_
       · exact write_wf wf _ l5
       · simp [Heap.write, n15, e1]
       · simp [Heap.write, n25, e2]
       · simp [Heap.write, n35, e3]
       · simp [Heap.write, n45, e4]
+      · intro r hr
+        obtain ⟨l, hl⟩ := e7 r hr
+        obtain ⟨_, _, _, _, r5, _, _⟩ := nn r l hl
+        exact ⟨l, by simp [Heap.write, r5, hl]⟩
       · intro r hr ho
-        obtain ⟨_, _, _, r4⟩ := not_owned e1 e2 ho
+        obtain ⟨_, _, _, _, r4⟩ := not_owned e1 e2 e3 ho
         simp [Heap.write, r4 hm]
   case metaSet k v =>
-    cases e
-    refine local_of_shape (k' := s.k) (hd' := s.hd) (m' := LbHeap.metaSet s.md k v) (ap' := s.ap)
-      (v' := s.vals) (t' := s.tuple)
-      e1 e2 ?_ ?_ ?_ ?_ ?_ ?_ hmt rfl rfl (Or.inl rfl) (Or.inl rfl) (Or.inl rfl) ?_
-    · exact write_wf wf _ l3
-    · simp [Heap.write, n13, e1]
-    · simp [Heap.write, n23, e2]
-    · simp [Heap.write]
-    · simp [Heap.write, n34.symm, e4]
-    · simp [Heap.write, n35.symm, e5]
-    · intro r hr ho
-      obtain ⟨_, _, r3, _⟩ := not_owned e1 e2 ho
-      simp [Heap.write, r3]
+    cases v with
+    | bad => cases e
+    | tok t =>
+      simp only at e
+      cases e
+      refine local_of_shape (k' := s.k) (hd' := s.hd) (m' := LbHeap.metaSet s.rmd k (.tok t))
+        (ap' := s.ap) (v' := s.vals) (t' := s.tuple)
+        e1 e2 e3 ?_ ?_ ?_ ?_ ?_ ?_ hmt ?_ rfl rfl (Or.inl rfl) (Or.inl rfl) (Or.inl rfl) ?_ ?_
+      · exact write_wf wf _ l3
+      · simp [Heap.write, n13, e1]
+      · simp [Heap.write, n23, e2]
+      · simp [Heap.write]
+      · simp [Heap.write, n34.symm, e4]
+      · simp [Heap.write, n35.symm, e5]
+      · intro r hr
+        rcases mdRefs_metaSet_sub hr with h1 | h1
+        · obtain ⟨l, hl⟩ := e7 r h1
+          obtain ⟨_, _, r3, _, _, _, _⟩ := nn r l hl
+          exact ⟨l, by simp [Heap.write, r3, hl]⟩
+        · cases h1
+      · intro r hr
+        rcases mdRefs_metaSet_sub hr with h1 | h1
+        · exact Or.inl h1
+        · cases h1
+      · intro r hr ho
+        obtain ⟨_, _, r3, _, _⟩ := not_owned e1 e2 e3 ho
+        simp [Heap.write, r3]
+    | lst l0 =>
+      simp only at e
+      cases e
+      refine local_of_shape (k' := s.k) (hd' := s.hd)
+        (m' := LbHeap.metaSet s.rmd k (.lst h.next))
+        (ap' := s.ap) (v' := s.vals) (t' := s.tuple)
+        e1 e2 e3 ?_ ?_ ?_ ?_ ?_ ?_ hmt ?_ rfl rfl (Or.inl rfl) (Or.inl rfl) (Or.inl rfl) ?_ ?_
+      · exact write_wf (alloc_wf wf _) _ (by simp only [alloc_next]; omega)
+      · simp [Heap.write, Heap.alloc, n13, f1, e1]
+      · simp [Heap.write, Heap.alloc, n23, f2, e2]
+      · simp [Heap.write, Heap.alloc]
+      · simp [Heap.write, Heap.alloc, n34.symm, f4, e4]
+      · simp [Heap.write, Heap.alloc, n35.symm, f5, e5]
+      · intro r hr
+        rcases mdRefs_metaSet_sub hr with h1 | h1
+        · obtain ⟨l, hl⟩ := e7 r h1
+          obtain ⟨_, _, r3, _, _, r6, _⟩ := nn r l hl
+          exact ⟨l, by simp [Heap.write, Heap.alloc, r3, r6, hl]⟩
+        · cases h1
+          exact ⟨l0, by simp [Heap.write, Heap.alloc, f3.symm]⟩
+      · intro r hr
+        rcases mdRefs_metaSet_sub hr with h1 | h1
+        · exact Or.inl h1
+        · cases h1; exact Or.inr (Nat.le_refl _)
+      · intro r hr ho
+        obtain ⟨_, _, r3, _, _⟩ := not_owned e1 e2 e3 ho
+        have : r ≠ h.next := by omega
+        simp [Heap.write, Heap.alloc, r3, this]
   case metaReplace nm =>
     cases e
-    refine local_of_shape (k' := s.k) (hd' := { s.hd with md := h.next }) (m' := nm) (ap' := s.ap)
-      (v' := s.vals) (t' := s.tuple)
-      e1 e2 ?_ ?_ ?_ ?_ ?_ ?_ hmt rfl rfl (Or.inr (Nat.le_refl _)) (Or.inl rfl) (Or.inl rfl) ?_
-    · exact write_wf (alloc_wf wf _) _ (by simp only [alloc_next]; omega)
-    · simp [Heap.write, Heap.alloc, n12, f1, e1]
-    · simp [Heap.write, Heap.alloc]
-    · simp [Heap.write, Heap.alloc, f2.symm]
-    · simp [Heap.write, Heap.alloc, n24.symm, f4, e4]
-    · simp [Heap.write, Heap.alloc, n25.symm, f5, e5]
+    have A := allocMd_spec wf nm
+    have Bwf := alloc_wf A.2.1 (.md (allocMd h nm).2)
+    have B := alloc_ext (allocMd h nm).1 (.md (allocMd h nm).2)
+    have AB := A.1.trans B
+    have nA : h.next ≤ (allocMd h nm).1.next := A.1.1
+    have keep : ∀ r x, h.cells r = some x → r ≠ s.k.hdr →
+        ((allocMd h nm).1.alloc (.md (allocMd h nm).2)).1.cells r = some x :=
+      fun r x hx _ => ext_cell wf AB hx
+    refine local_of_shape (k' := s.k) (hd' := { s.hd with md := (allocMd h nm).1.next })
+      (m' := (allocMd h nm).2) (ap' := s.ap) (v' := s.vals) (t' := s.tuple)
+      e1 e2 e3 ?_ ?_ ?_ ?_ ?_ ?_ hmt ?_ rfl rfl (Or.inr nA) (Or.inl rfl) (Or.inl rfl) ?_ ?_
+    · exact write_wf Bwf _ (Nat.lt_of_lt_of_le l2 AB.1)
+    · rw [write_other _ _ n12]; exact keep a _ e1 n12
+    · exact write_same _ _ _
+    · have : (allocMd h nm).1.next ≠ s.k.hdr := by omega
+      rw [write_other _ _ this]; exact alloc_get _ _
+    · rw [write_other _ _ n24.symm]; exact keep _ _ e4 n24.symm
+    · rw [write_other _ _ n25.symm]; exact keep _ _ e5 n25.symm
+    · intro r hr
+      obtain ⟨h1, l, h2⟩ := A.2.2 r hr
+      have : r ≠ s.k.hdr := Nat.ne_of_gt (Nat.lt_of_lt_of_le l2 h1)
+      exact ⟨l, by rw [write_other _ _ this]; exact ext_cell A.2.1 B h2⟩
+    · intro r hr; exact Or.inr (A.2.2 r hr).1
     · intro r hr ho
-      obtain ⟨_, r2, _, _⟩ := not_owned e1 e2 ho
-      have : r ≠ h.next := by omega
-      simp [Heap.write, Heap.alloc, r2, this]
+      obtain ⟨_, r2, _, _, _⟩ := not_owned e1 e2 e3 ho
+      rw [write_other _ _ r2]
+      exact AB.2 r hr
   case cullInplace ts =>
     repeat' (split at e)
     all_goals try (cases e; done)
@@ -296,10 +620,10 @@ theorem mutate_local {m : Mode} {h h' : Heap} {a : Nat} {op : MOp} (wf : WF h) (
     have g3 : s.hd.md ≠ h.next + 1 := Nat.ne_of_lt (Nat.lt_succ_of_lt l3)
     refine local_of_shape
       (k' := { s.k with vals := h.next + 1, dts := keep s.k.dts (cullSel s.k.dts ts), dtsList := true })
-      (hd' := { s.hd with ap := h.next }) (m' := s.md) (ap' := apWithTs s.ap ts)
+      (hd' := { s.hd with ap := h.next }) (m' := s.rmd) (ap' := apWithTs s.ap ts)
       (v' := keep s.vals (cullSel s.k.dts ts)) (t' := false)
-      e1 e2 ?_ ?_ ?_ ?_ ?_ ?_ (fun _ => rfl) rfl rfl (Or.inl rfl) (Or.inr (Nat.le_refl _))
-      (Or.inr (Nat.le_succ _)) ?_
+      e1 e2 e3 ?_ ?_ ?_ ?_ ?_ ?_ (fun _ => rfl) ?_ rfl rfl (Or.inl rfl) (Or.inr (Nat.le_refl _))
+      (Or.inr (Nat.le_succ _)) (fun r hr => Or.inl hr) ?_
     · exact write_wf (write_wf (alloc_wf (alloc_wf wf _) _) _ (by simp only [alloc_next]; omega)) _
         (by simp only [write_next, alloc_next]; omega)
     · simp [Heap.write, Heap.alloc, n12]
@@ -307,10 +631,45 @@ theorem mutate_local {m : Mode} {h h' : Heap} {a : Nat} {op : MOp} (wf : WF h) (
     · simp [Heap.write, Heap.alloc, n23.symm, n13.symm, f3, g3, e3]
     · simp [Heap.write, Heap.alloc, f2.symm, f1.symm]
     · simp [Heap.write, Heap.alloc, g2.symm, g1.symm]
+    · intro r hr
+      obtain ⟨l, hl⟩ := e7 r hr
+      obtain ⟨r1, r2, _, _, _, r6, r7⟩ := nn r l hl
+      exact ⟨l, by simp [Heap.write, Heap.alloc, r1, r2, r6, r7, hl]⟩
     · intro r hr ho
-      obtain ⟨r1, r2, _, _⟩ := not_owned e1 e2 ho
+      obtain ⟨r1, r2, _, _, _⟩ := not_owned e1 e2 e3 ho
       have : r ≠ h.next := by omega
       have : r ≠ h.next + 1 := by omega
       simp [Heap.write, Heap.alloc, r1, r2, *]
+  case metaAppend k x =>
+    split at e
+    · cases e
+    · cases e
+    · rename_i k0 r0 hfind
+      split at e
+      · rename_i l0 hl0
+        cases e
+        have hmem : r0 ∈ mdRefs s.rmd :=
+          mem_mdRefs.2 ⟨k0, List.mem_of_find?_eq_some hfind⟩
+        obtain ⟨q1, q2, q3, q4, q5, _, _⟩ := nn r0 l0 hl0
+        refine local_of_shape (k' := s.k) (hd' := s.hd) (m' := s.rmd) (ap' := s.ap) (v' := s.vals)
+          (t' := s.tuple)
+          e1 e2 e3 ?_ ?_ ?_ ?_ ?_ ?_ hmt ?_ rfl rfl (Or.inl rfl) (Or.inl rfl) (Or.inl rfl)
+          (fun r hr => Or.inl hr) ?_
+        · exact write_wf wf _ (lt_next_of_some wf hl0)
+        · simp [Heap.write, q1.symm, e1]
+        · simp [Heap.write, q2.symm, e2]
+        · simp [Heap.write, q3.symm, e3]
+        · simp [Heap.write, q4.symm, e4]
+        · simp [Heap.write, q5.symm, e5]
+        · intro r hr
+          by_cases er : r = r0
+          · subst er; exact ⟨_, write_same _ _ _⟩
+          · obtain ⟨l, hl⟩ := e7 r hr
+            exact ⟨l, by rw [write_other _ _ er]; exact hl⟩
+        · intro r hr ho
+          obtain ⟨_, _, _, r4, _⟩ := not_owned e1 e2 e3 ho
+          have : r ≠ r0 := fun e' => r4 (e' ▸ hmem)
+          rw [write_other _ _ this]
+      · cases e
 
 end LbHeap
